@@ -427,8 +427,13 @@ fn get_bar_region<H: Hal, T, C: ConfigurationAccess>(
     device_function: DeviceFunction,
     struct_info: &VirtioCapabilityInfo,
 ) -> Result<NonNull<T>, VirtioPciError> {
+    // Look the BAR up in the list of all BARs rather than probing the register directly, so that
+    // reserved BAR indices and the upper half of a 64-bit BAR are not mistaken for a BAR.
     let bar_info = root
-        .bar_info(device_function, struct_info.bar)?
+        .bars(device_function)?
+        .get(usize::from(struct_info.bar))
+        .cloned()
+        .flatten()
         .ok_or(VirtioPciError::BarNotAllocated(struct_info.bar))?;
     let (bar_address, bar_size) = bar_info
         .memory_address_size()
